@@ -64,28 +64,41 @@ func (h *History) Add(form Form) {
 	h.forms = append(h.forms, form.Dup())
 	if h.max <= len(h.forms) {
 		h.forms = h.forms[len(h.forms)-h.limit:]
+		verifFS("history.compact.before-open")
 		tmp := fmt.Sprintf("%s.tmp", h.filename)
 		f, err := os.OpenFile(tmp, os.O_TRUNC|os.O_APPEND|os.O_CREATE|os.O_WRONLY, 0644)
 		if err != nil {
 			panic(err)
 		}
+		verifFS("history.compact.after-open")
 		defer func() { _ = f.Close() }()
 		for _, frm := range h.forms {
 			// Write each line separately to avoid excessive memory use if the
 			// history is long.
+			verifFS("history.compact.before-write")
 			if _, err = f.Write(frm.TabAppend(nil)); err != nil {
 				panic(err)
 			}
+			verifFS("history.compact.after-write")
 		}
+		verifFS("history.compact.before-close")
 		_ = f.Close()
+		verifFS("history.compact.after-close")
+		verifFS("history.compact.before-rename")
 		if err := os.Rename(tmp, h.filename); err != nil {
 			panic(err)
 		}
+		verifFS("history.compact.after-rename")
 	} else {
+		verifFS("history.add.before-open")
 		f, err := os.OpenFile(h.filename, os.O_APPEND|os.O_CREATE|os.O_WRONLY, 0644)
+		verifFS("history.add.after-open")
+		defer verifFS("history.add.after-close")
 		defer func() { _ = f.Close() }()
 		if err == nil {
+			verifFS("history.add.before-write")
 			_, err = f.Write(form.TabAppend(nil))
+			verifFS("history.add.after-write")
 		}
 		if err != nil {
 			panic(err)
@@ -96,14 +109,19 @@ func (h *History) Add(form Form) {
 // Clear the stash entries in the range specified..
 func (h *History) Clear(start, end int) {
 	h.clear(start, end)
+	verifFS("history.clear.before-open")
 	f, err := os.OpenFile(h.filename, os.O_TRUNC|os.O_APPEND|os.O_CREATE|os.O_WRONLY, 0644)
 	if err != nil {
 		panic(err)
 	}
+	verifFS("history.clear.after-open")
+	defer verifFS("history.clear.after-close")
 	defer func() { _ = f.Close() }()
 	for _, frm := range h.forms {
+		verifFS("history.clear.before-write")
 		if _, err = f.Write(frm.TabAppend(nil)); err != nil {
 			panic(err)
 		}
+		verifFS("history.clear.after-write")
 	}
 }
